@@ -6,7 +6,10 @@
 (*                                                                             *)
 (*  "b58"    byte strings over {0,1,57,58,255} (all, up to MaxLen), character  *)
 (*           strings over alphabet and non-alphabet characters (all, up to     *)
-(*           MaxText), long inputs 0^z ++ pattern: Enc58 / Dec58               *)
+(*           MaxText), long inputs 0^z ++ pattern: Enc58 / Dec58; byte strings *)
+(*           of several hundred bytes (lengths next to powers of two and next  *)
+(*           to text lengths 256 / 512, without, with one, with mostly and     *)
+(*           with only leading zeros)                                          *)
 (*  "terms"  the checksum terms First4(SHA256d(payload)) of the payload list   *)
 (*  "b58c"   Base58Check of the payload list (checksums supplied by the        *)
 (*           evaluator in C11_H4_FILE) and corruptions: every checksum byte    *)
@@ -18,7 +21,10 @@
 (*           encode must return and what decode must say about the raw string  *)
 (*  "corr"   corruptions of valid addresses by class: substitutions, case,     *)
 (*           wrong constant, padding, length, version, characters outside the  *)
-(*           charset / the printable range, structure, expected-hrp mismatch,  *)
+(*           charset / the printable range (incl. code points beyond ASCII     *)
+(*           that Unicode case mapping or width folding sends onto the very    *)
+(*           letter they replace, in lower, upper and mixed case strings),     *)
+(*           structure, expected-hrp mismatch,                                 *)
 (*           1..4 seeded random substitutions; invariant Guarantee states what *)
 (*           the BCH code promises for them                                    *)
 (*  "bits"   8->5 (padded) and 5->8 (strict) regrouping of all short strings   *)
@@ -41,28 +47,57 @@ PPattern(n, p) == [i \in 1..n |-> CASE p = 1 -> (i * 37 + 11) % 256
 \* ------------------------------------------------------------------ b58
 ByteSyms == {0, 1, 57, 58, 255}
 CharSyms == {49, 50, 122, 90, 48, 108, 32, 56448} \cup (IF Rich THEN {73, 79, 233} ELSE {})
+(* The rule book's ToRadix recurses once per output digit; for inputs of several *)
+(* hundred bytes the same schoolbook division is iterated instead (one fold step *)
+(* per output digit, bound = an upper bound on their number).  Invariant         *)
+(* LongFormAgrees ties it to Enc58 / Dec58 on every state of the "long" grid.    *)
+IterRadix(ds, from, to, bound) ==
+  LET step(acc, j) == IF acc.s = <<>> THEN acc
+                      ELSE LET dm == DivMod(acc.s, from, to) IN [s |-> StripZeros(dm.q), out |-> <<dm.r>> \o acc.out]
+  IN FoldLeft(step, [s |-> StripZeros(ds), out |-> <<>>], [j \in 1..bound |-> j]).out
+Enc58L(b) == LET z == LeadingZeros(b)                                  \* B2; 58^2 > 256: at most 2 digits per byte
+                 ds == Zeros(z) \o IterRadix(SubSeq(b, z + 1, Len(b)), 256, 58, 2 * (Len(b) - z))
+             IN [i \in DOMAIN ds |-> Alphabet[ds[i] + 1]]
+Dec58L(s) == IF ~Valid58(s) THEN [ok |-> FALSE, b |-> <<>>]            \* B3; 256 > 58: at most 1 byte per digit
+             ELSE LET ds == [i \in DOMAIN s |-> DigitOf(s[i])]  z == LeadingZeros(ds)
+                  IN [ok |-> TRUE, b |-> Zeros(z) \o IterRadix(SubSeq(ds, z + 1, Len(ds)), 58, 256, Len(ds) - z)]
+\* byte lengths next to powers of two, and those whose text is next to 256 / 512 characters
+XLens == {186, 187, 188, 255, 256, 257, 370, 371, 374, 375, 376, 511, 512, 513, 1024} \cup (IF Rich THEN {127, 128, 129, 700, 1023, 1025, 2048} ELSE {})
+XZeros(n) == {0, 1, n - 9, n}
 B58Succ ==
   CASE c.m = "root" -> {[m |-> "enc", x |-> <<>>], [m |-> "dec", x |-> <<>>]}
                        \cup [m : {"long"}, z : 0..LongZ, p : 1..5, n : {0}]
+                       \cup UNION {[m : {"xlong"}, n : {n}, z : XZeros(n), p : IF Rich THEN {2, 4} ELSE {4}] : n \in XLens}
     [] c.m = "enc" -> IF Len(c.x) < MaxLen THEN {[c EXCEPT !.x = Append(c.x, s)] : s \in ByteSyms} ELSE {}
     [] c.m = "dec" -> IF Len(c.x) < MaxText THEN {[c EXCEPT !.x = Append(c.x, s)] : s \in CharSyms} ELSE {}
     [] c.m = "long" -> IF c.n < LongN THEN {[c EXCEPT !.n = c.n + 1]} ELSE {}
+    [] c.m = "xlong" -> {}
 B58Out(cs) ==
   CASE cs.m = "enc" -> [k |-> "b58enc", b |-> cs.x, s |-> Enc58(cs.x)]
     [] cs.m = "long" -> LET b == Zeros(cs.z) \o BPattern(cs.n, cs.p) IN [k |-> "b58enc", b |-> b, s |-> Enc58(b)]
+    [] cs.m = "xlong" -> LET b == Zeros(cs.z) \o BPattern(cs.n - cs.z, cs.p) IN [k |-> "b58enc", b |-> b, s |-> Enc58L(b)]
     [] cs.m = "dec" -> LET d == Dec58(cs.x) IN [k |-> "b58dec", s |-> cs.x, ok |-> d.ok, b |-> d.b]
+LongFormAgrees == (Mode = "b58" /\ c.m = "long") => /\ Enc58L(out.b) = out.s
+                                                    /\ Dec58L(out.s) = Dec58(out.s)
+                                                    /\ Dec58L(out.s).b = out.b
 \* ------------------------------------------------------------------ b58c
 VerPrefixes == << <<>>, <<0>>, <<5>>, <<111>>, <<128>>, <<255>>, <<4, 136, 178, 30>>, <<0, 0>> >>
 BodyLens == <<0, 1, 20, 32, 33, 74>>
 NCombo == Len(VerPrefixes) * Len(BodyLens) * 3
+\* <<payload length, leading zeros>>: payload + 4 checksum bytes next to the byte lengths of the "xlong" grid
+LongPays == << <<183, 0>>, <<184, 0>>, <<252, 0>>, <<253, 1>>, <<366, 0>>, <<367, 0>>, <<371, 1>>, <<372, 0>>, <<372, 363>>,
+               <<508, 0>>, <<509, 0>>, <<509, 500>>, <<1020, 0>> >>
 Payload(i) == IF i <= NCombo
               THEN VerPrefixes[(i - 1) \div 18 + 1] \o BPattern(BodyLens[((i - 1) % 18) \div 3 + 1], ((i - 1) % 3) + 2)
               ELSE IF i <= NCombo + 26 THEN Zeros(i - NCombo - 1)
-              ELSE Zeros(<<32, 33, 40, 64>>[i - NCombo - 26])
-NPayAll == NCombo + 30
+              ELSE IF i <= NCombo + 30 THEN Zeros(<<32, 33, 40, 64>>[i - NCombo - 26])
+              ELSE LET e == LongPays[i - NCombo - 30] IN Zeros(e[2]) \o BPattern(e[1] - e[2], 4)
+NPayAll == NCombo + 30 + Len(LongPays)
+IsLongPay(i) == i > NCombo + 30
 H == JsonDeserialize(IOEnv.C11_H4_FILE)         \* <<[p |-> payload, h4 |-> value of H4Term(payload)], ...>>
 HashFor(i) == IF H[i].p = Payload(i) THEN H[i].h4 ELSE Assert(FALSE, <<"hash table does not answer term", i>>)
 Valid58Check(i) == Enc58Check(Payload(i), HashFor(i))
+Enc58CheckL(p, h4) == Enc58L(p \o h4)           \* B4 with the iterated division
 NonAlpha == {48, 79, 73, 108, 32, 43, 47, 233, 8364, 56448}    \* 0 O I l space + / e-acute euro, a lone surrogate
 \* positions of a string of length n that are corrupted (all of them when Rich or short)
 Positions(n) == IF Rich \/ n <= 40 THEN 1..n ELSE {1, 2, 3, n \div 2, n - 2, n - 1, n} \cap 1..n
@@ -72,7 +107,13 @@ AlphaSubs(ch) == LET d == DigitOf(ch) IN
 B58cSucc ==
   CASE c.m = "root" -> \* the quick grid keeps the 74-byte bodies for three of the eight prefixes only
                        [m : {"valid"}, i : {i \in 1..NPay : Rich \/ i > NCombo \/ ((i - 1) % 18) < 15 \/ ((i - 1) \div 18) \in {0, 1, 6}}]
-    [] c.m = "valid" ->
+    [] c.m = "valid" /\ IsLongPay(c.i) ->
+         \* long payloads: the string itself, a wrong checksum byte, a character outside the alphabet
+         LET p == Payload(c.i)  h4 == HashFor(c.i)  s == Enc58CheckL(p, h4)
+             base == [i |-> c.i, p |-> p, h4 |-> h4, s |-> s, pos |-> 0, d |-> 0, w |-> ""]
+         IN {[base EXCEPT !.pos = q, !.d = 1] @@ [m |-> "cks"] : q \in {1, 4}}
+            \cup {[base EXCEPT !.pos = q, !.d = ch] @@ [m |-> "sub"] : q \in {1, Len(s) \div 2, Len(s)}, ch \in {48, 8364}}
+    [] c.m = "valid" /\ ~IsLongPay(c.i) ->
          LET p == Payload(c.i)  h4 == HashFor(c.i)  s == Enc58Check(p, h4)
              base == [i |-> c.i, p |-> p, h4 |-> h4, s |-> s, pos |-> 0, d |-> 0, w |-> ""]
          IN {[base EXCEPT !.pos = q, !.d = d] @@ [m |-> "cks"] : q \in 1..4, d \in {1, 128, 255}}
@@ -86,10 +127,11 @@ Verdict(s) == LET sp == Split58Check(s) IN
   ELSE [exp |-> "reject", why |-> sp.why, payload |-> <<>>, cks |-> <<>>, term |-> H4Term(<<>>)]
 B58cOut(cs) ==
   CASE cs.m = "valid" -> LET p == Payload(cs.i)  h4 == HashFor(cs.i) IN
-         [k |-> "b58c", cls |-> "valid", s |-> Enc58Check(p, h4), exp |-> "accept", why |-> "", payload |-> p, cks |-> h4, term |-> H4Term(p)]
+         [k |-> "b58c", cls |-> "valid", s |-> IF IsLongPay(cs.i) THEN Enc58CheckL(p, h4) ELSE Enc58Check(p, h4),
+          exp |-> "accept", why |-> "", payload |-> p, cks |-> h4, term |-> H4Term(p)]
     [] cs.m = "cks" -> LET h2 == [cs.h4 EXCEPT ![cs.pos] = cs.h4[cs.pos] ^^ cs.d] IN
          \* same payload, so same hash, different checksum bytes: a definite rejection
-         [k |-> "b58c", cls |-> "cks-flip", s |-> Enc58(cs.p \o h2), exp |-> "reject", why |-> "checksum", payload |-> cs.p, cks |-> h2, term |-> H4Term(cs.p)]
+         [k |-> "b58c", cls |-> "cks-flip", s |-> IF IsLongPay(cs.i) THEN Enc58L(cs.p \o h2) ELSE Enc58(cs.p \o h2), exp |-> "reject", why |-> "checksum", payload |-> cs.p, cks |-> h2, term |-> H4Term(cs.p)]
     [] cs.m = "sub" -> LET t == [cs.s EXCEPT ![cs.pos] = cs.d] IN
          [k |-> "b58c", cls |-> IF cs.d \in AlphabetSet THEN "sub-alpha" ELSE "sub-nonalpha", s |-> t] @@ Verdict(t)
     [] cs.m = "trunc" -> [k |-> "b58c", cls |-> "trunc", s |-> SubSeq(cs.s, 1, cs.pos)] @@ Verdict(SubSeq(cs.s, 1, cs.pos))
@@ -140,6 +182,20 @@ OtherConst(ver) == IF ver = 0 THEN BECH32M ELSE BECH32
 XorSet == IF Rich THEN 1..31 ELSE {1, 16, 31}
 HrpSubChars == {33, 49, 65, 98, 113, 126}
 DataBadChars == {98, 105, 111, 49, 32, 127, 128, 233, 256, 66}
+(* Code points beyond ASCII that a Unicode case mapping sends onto an ASCII letter lc (given in lower case): *)
+(* the single-character mappings (KELVIN SIGN lower-cases to k, LONG S upper-cases to S, DOTLESS I upper-   *)
+(* cases to I, I WITH DOT ABOVE lower-cases to i + combining dot); Rich: also those whose upper case is the *)
+(* letter plus a mark or a second letter (SpecialCasing.txt: sharp s, ligatures, j-caron, h/t/w/y/a/n forms) *)
+CaseAlikes(lc) ==
+  (CASE lc = 107 -> {8490} [] lc = 115 -> {383} [] lc = 105 -> {304, 305} [] OTHER -> {})
+  \cup (IF ~Rich THEN {} ELSE
+        CASE lc = 115 -> {223, 64261, 64262} [] lc = 102 -> {64256, 64257, 64258} [] lc = 106 -> {496} [] lc = 104 -> {7830}
+          [] lc = 116 -> {7831, 64261} [] lc = 119 -> {7832} [] lc = 121 -> {7833} [] lc = 97 -> {7834} [] lc = 110 -> {329} [] OTHER -> {})
+FullWidth(ch) == 65248 + ch          \* U+FF01..U+FF5E are the full-width forms of 33..126
+CaseForms == {"lower", "upper", "mixed"}
+\* the valid string in one of the three case forms (mixed: upper-case hrp, lower-case data part)
+InForm(k, form) == LET s == BaseStr(k)  hl == Len(Bases[k].hrp) IN
+  [i \in DOMAIN s |-> IF form = "upper" \/ (form = "mixed" /\ i <= hl) THEN Upper(s[i]) ELSE s[i]]
 NParts == 8
 CorrSucc ==
   CASE c.m = "root" -> [m : {"base"}, k : 1..Len(Bases)] \cup [m : {"struct"}, w : 1..14]
@@ -153,6 +209,8 @@ CorrSucc ==
          \cup {[m |-> "upper1", k |-> c.k, pos |-> q] : q \in {q \in DOMAIN s : IsLower(s[q]) /\ mine(q)}}
          \cup [m : {"bad"}, k : {c.k}, pos : {q \in (IF Rich THEN (hl + 2)..Len(s) ELSE {hl + 2, hl + 3, Len(s) - 6, Len(s) - 5, Len(s)}) : mine(q)}, ch : DataBadChars]
          \cup [m : {"rnd"}, k : {c.k}, idx : {q \in 1..NRnd : mine(q)}, w : 1..4]
+         \cup UNION {[m : {"alike"}, k : {c.k}, pos : {q}, ch : CaseAlikes(Lower(s[q])), form : CaseForms] : q \in {q \in DOMAIN s : mine(q)}}
+         \cup [m : {"wide"}, k : {c.k}, pos : {q \in (IF Rich THEN DOMAIN s ELSE {1, hl + 2, hl + 3, Len(s) - 6, Len(s)}) : mine(q)}, form : CaseForms]
          \cup (IF first THEN [m : {"case"}, k : {c.k}, w : {"all", "hrp", "data"}] ELSE {})
          \cup (IF c.part = 1 THEN [m : {"forge"}, k : {c.k}, w : {"wrongconst", "padbit1", "padbit2", "padbit3", "padbit4", "extrazero", "extrazero2", "dropsym",
                                                "ver17", "ver31", "nodata", "veronly", "flipver"}] ELSE {})
@@ -223,6 +281,8 @@ CorrCase(cs) ==        \* <<class, expected hrp, string>>
          <<"upper-" \o cs.w, Bases[cs.k].hrp,
            [i \in DOMAIN s |-> IF cs.w = "all" \/ (cs.w = "hrp" /\ i <= hl) \/ (cs.w = "data" /\ i > hl) THEN Upper(s[i]) ELSE s[i]]>>
     [] cs.m = "bad" -> <<"bad-char", Bases[cs.k].hrp, [BaseStr(cs.k) EXCEPT ![cs.pos] = cs.ch]>>
+    [] cs.m = "alike" -> <<"nonascii-" \o cs.form, Bases[cs.k].hrp, [InForm(cs.k, cs.form) EXCEPT ![cs.pos] = cs.ch]>>
+    [] cs.m = "wide" -> <<"nonascii-" \o cs.form, Bases[cs.k].hrp, [InForm(cs.k, cs.form) EXCEPT ![cs.pos] = FullWidth(@)]>>
     [] cs.m = "forge" -> <<"forge-" \o cs.w, Bases[cs.k].hrp, Forge(cs.k, cs.w)>>
     [] cs.m = "hrp" -> <<"expected-hrp-" \o ToString(cs.w), OtherHrps(cs.k)[cs.w], BaseStr(cs.k)>>
     [] cs.m = "edit" -> <<"edit-" \o cs.w, Bases[cs.k].hrp, Edit(cs.k, cs.w)>>
